@@ -1,10 +1,619 @@
-//! C04 — stub: property not yet claimed.
+//! C04 — status ↔ header codec: Status::add_header / from_header_map, Code tables, HTTP and
+//! HTTP/2 mapping tables (exhaustive over each finite domain on every run).
 use crate::common::*;
+use bytes::{Buf, Bytes};
+use http::{HeaderMap, HeaderName, HeaderValue};
+use http_body::Frame;
+use tonic::codec::{DecodeBuf, Decoder, Streaming};
+use tonic::metadata::MetadataMap;
+use tonic::{Code, Status};
 
-pub fn generate(_tier: &str, _rng: &mut Rng) -> Vec<String> {
-    Vec::new()
+// ---------------------------------------------------------------------------------------------
+// canonical text forms (shared with c08.rs)
+
+/// `<#names> (<name> <#values> <value>*)*`, names ascending, values of one name in map order.
+pub fn render_map(h: &HeaderMap) -> String {
+    let mut names: Vec<&HeaderName> = h.keys().collect();
+    names.sort_by(|a, b| a.as_str().as_bytes().cmp(b.as_str().as_bytes()));
+    let mut out = vec![names.len().to_string()];
+    for n in names {
+        let vs: Vec<&HeaderValue> = h.get_all(n).iter().collect();
+        out.push(hex(n.as_str().as_bytes()));
+        out.push(vs.len().to_string());
+        for v in vs {
+            out.push(hex(v.as_bytes()));
+        }
+    }
+    out.join(" ")
 }
 
-pub fn execute(_case: &str) -> String {
-    "unclaimed".into()
+/// `<#entries> (<name> <value>)*` in insertion order.
+pub fn entries_tok(es: &[(Vec<u8>, Vec<u8>)]) -> String {
+    let mut out = vec![es.len().to_string()];
+    for (k, v) in es {
+        out.push(hex(k));
+        out.push(hex(v));
+    }
+    out.join(" ")
+}
+
+/// Parse `<#entries> (<name> <value>)*` from a token cursor; the map is built with `append`.
+pub fn parse_entries<'a>(it: &mut impl Iterator<Item = &'a str>) -> Option<HeaderMap> {
+    let n: usize = it.next()?.parse().ok()?;
+    let mut h = HeaderMap::new();
+    for _ in 0..n {
+        let k = unhex(it.next()?)?;
+        let v = unhex(it.next()?)?;
+        let name = HeaderName::from_bytes(&k).ok()?;
+        let val = HeaderValue::from_bytes(&v).ok()?;
+        h.append(name, val);
+    }
+    Some(h)
+}
+
+const DET_ERR_PREFIX: &str = "Error deserializing status details header: ";
+
+pub fn render_status(st: &Status) -> String {
+    // the text after the details-error prefix is the base64 crate's error description, which
+    // the model does not reproduce
+    let msg: &str = if st.message().starts_with(DET_ERR_PREFIX) { DET_ERR_PREFIX } else { st.message() };
+    format!(
+        "{} {} {} {}",
+        st.code() as i32,
+        hex(msg.as_bytes()),
+        hex(st.details()),
+        render_map(&st.metadata().clone().into_headers())
+    )
+}
+
+fn parse_status<'a>(it: &mut impl Iterator<Item = &'a str>) -> Option<Status> {
+    let c: i32 = it.next()?.parse().ok()?;
+    let m = String::from_utf8(unhex(it.next()?)?).ok()?;
+    let d = unhex(it.next()?)?;
+    let md = parse_entries(it)?;
+    Some(Status::with_details_and_metadata(
+        Code::from_i32(c),
+        m,
+        Bytes::from(d),
+        MetadataMap::from_headers(md),
+    ))
+}
+
+// ---------------------------------------------------------------------------------------------
+// execution
+
+struct RawDecoder;
+impl Decoder for RawDecoder {
+    type Item = Vec<u8>;
+    type Error = Status;
+    fn decode(&mut self, src: &mut DecodeBuf<'_>) -> Result<Option<Vec<u8>>, Status> {
+        let n = src.remaining();
+        Ok(Some(src.copy_to_bytes(n).to_vec()))
+    }
+}
+
+pub fn execute(case: &str) -> String {
+    let mut it = case.split(' ');
+    match it.next() {
+        Some("code") => {
+            let b = unhex(it.next().unwrap()).unwrap();
+            (Code::from_bytes(&b) as i32).to_string()
+        }
+        Some("u8") => {
+            // Rust's own UTF-8 encoding of a code point (None for surrogates / out of range)
+            let c: u32 = it.next().unwrap().parse().unwrap();
+            match char::from_u32(c) {
+                Some(ch) => format!("u {}", hex(ch.to_string().as_bytes())),
+                None => "none".into(),
+            }
+        }
+        Some("codei") => {
+            let sgn = it.next().unwrap();
+            let mag: i64 = it.next().unwrap().parse().unwrap();
+            let i = if sgn == "-" { -mag } else { mag } as i32;
+            let c = Code::from_i32(i);
+            let back: i32 = c.into();
+            assert_eq!(back, c as i32);
+            back.to_string()
+        }
+        Some("enc") => {
+            let st = match parse_status(&mut it) {
+                Some(s) => s,
+                None => return "bad-case".into(),
+            };
+            let mut h0 = match parse_entries(&mut it) {
+                Some(h) => h,
+                None => return "bad-case".into(),
+            };
+            match st.add_header(&mut h0) {
+                Ok(()) => format!("ok {}", render_map(&h0)),
+                Err(e) => format!("err {}", render_status(&e)),
+            }
+        }
+        Some("dec") => {
+            let h = match parse_entries(&mut it) {
+                Some(h) => h,
+                None => return "bad-case".into(),
+            };
+            match Status::from_header_map(&h) {
+                None => "none".into(),
+                Some(st) => format!("st {}", render_status(&st)),
+            }
+        }
+        Some("rt") => {
+            let st = match parse_status(&mut it) {
+                Some(s) => s,
+                None => return "bad-case".into(),
+            };
+            let mut h = HeaderMap::new();
+            if let Err(e) = st.add_header(&mut h) {
+                return format!("enc-err {}", render_status(&e));
+            }
+            let back = match guarded_opt(|| Status::from_header_map(&h)) {
+                None => "panic".to_string(),
+                Some(None) => "none".to_string(),
+                Some(Some(st)) => format!("st {}", render_status(&st)),
+            };
+            format!("wire {} back {}", render_map(&h), back)
+        }
+        Some("rth") => {
+            // trailers-only response: Status::into_http writes content-type first
+            let st = match parse_status(&mut it) {
+                Some(s) => s,
+                None => return "bad-case".into(),
+            };
+            let resp = st.into_http::<()>();
+            let h = resp.headers().clone();
+            let back = match guarded_opt(|| Status::from_header_map(&h)) {
+                None => "panic".to_string(),
+                Some(None) => "none".to_string(),
+                Some(Some(st)) => format!("st {}", render_status(&st)),
+            };
+            format!("wire {} back {}", render_map(&h), back)
+        }
+        Some("infer") => {
+            let http: u16 = it.next().unwrap().parse().unwrap();
+            let nf: usize = it.next().unwrap().parse().unwrap();
+            let mut frames = Vec::new();
+            for _ in 0..nf {
+                match parse_entries(&mut it) {
+                    Some(h) => frames.push(h),
+                    None => return "bad-case".into(),
+                }
+            }
+            infer_case(http, frames)
+        }
+        Some("h2") => {
+            let r: u32 = it.next().unwrap().parse().unwrap();
+            let e1: h2::Error = h2::Reason::from(r).into();
+            let s1 = Status::from(e1);
+            let e2: h2::Error = h2::Reason::from(r).into();
+            let s2 = Status::from_error(Box::new(e2));
+            let pfx = s1.message().starts_with("h2 protocol error: ") && s2.message().starts_with("h2 protocol error: ");
+            format!("{} {} {}", s1.code() as i32, s2.code() as i32, pfx as u8)
+        }
+        Some("toh2") => {
+            let c: i32 = it.next().unwrap().parse().unwrap();
+            let e: h2::Error = Status::new(Code::from_i32(c), "m").into();
+            match e.reason() {
+                Some(r) => u32::from(r).to_string(),
+                None => "no-reason".into(),
+            }
+        }
+        _ => "bad-case".into(),
+    }
+}
+
+fn guarded_opt<T, F: FnOnce() -> T>(f: F) -> Option<T> {
+    std::panic::catch_unwind(std::panic::AssertUnwindSafe(f)).ok()
+}
+
+fn infer_case(http: u16, frames: Vec<HeaderMap>) -> String {
+    let status = match http::StatusCode::from_u16(http) {
+        Ok(s) => s,
+        Err(_) => return "bad-case".into(),
+    };
+    let items: Vec<Result<Frame<Bytes>, Status>> = frames.into_iter().map(|h| Ok(Frame::trailers(h))).collect();
+    let body = http_body_util::StreamBody::new(tokio_stream::iter(items));
+    let mut s: Streaming<Vec<u8>> = Streaming::new_response(RawDecoder, body, status, None, None);
+    let rt = tokio::runtime::Builder::new_current_thread().build().unwrap();
+    rt.block_on(async move {
+        match s.message().await {
+            Ok(None) => match s.trailers().await {
+                Ok(None) => "end none".to_string(),
+                Ok(Some(t)) => format!("end some {}", render_map(&t.into_headers())),
+                Err(e) => format!("end trailers-err {}", render_status(&e)),
+            },
+            Ok(Some(_)) => "unexpected-message".to_string(),
+            Err(st) => {
+                let after = match s.trailers().await {
+                    Ok(None) => "t:none",
+                    Ok(Some(_)) => "t:some",
+                    Err(_) => "t:err",
+                };
+                format!("err {} {}", render_status(&st), after)
+            }
+        }
+    })
+}
+
+// ---------------------------------------------------------------------------------------------
+// generation
+
+const RESERVED: [&str; 6] = ["te", "user-agent", "content-type", "grpc-message", "grpc-message-type", "grpc-status"];
+
+fn legal_value_byte(b: u8) -> bool {
+    (b >= 32 && b != 127) || b == 9
+}
+
+pub fn gen_value(rng: &mut Rng) -> Vec<u8> {
+    match rng.below(8) {
+        0 => vec![],
+        1 => b"v".to_vec(),
+        2 => b"application/grpc".to_vec(),
+        3 => {
+            // opaque bytes
+            let n = rng.range(1, 6) as usize;
+            (0..n).map(|_| 0x80 | (rng.next() as u8)).collect()
+        }
+        4 => b"a b\tc".to_vec(),
+        5 => {
+            // base64-looking
+            let n = rng.range(0, 9) as usize;
+            (0..n).map(|_| *rng.pick(b"ABab01+/=")).collect()
+        }
+        _ => {
+            let n = rng.range(1, 10) as usize;
+            (0..n)
+                .map(|_| loop {
+                    let b = rng.next() as u8;
+                    if legal_value_byte(b) {
+                        break b;
+                    }
+                })
+                .collect()
+        }
+    }
+}
+
+pub fn gen_name(rng: &mut Rng) -> Vec<u8> {
+    const CUSTOM: [&str; 12] = [
+        "x-a", "x-b", "x-a-bin", "foo", "foo-bin", "bin", "-bin", "x-trace-id", "grpc-timeout", "grpc-encoding", "a.b_c~d", "x-bin-x",
+    ];
+    match rng.below(10) {
+        0 | 1 => RESERVED[rng.below(6) as usize].as_bytes().to_vec(),
+        2 => b"grpc-status-details-bin".to_vec(),
+        _ => CUSTOM[rng.below(CUSTOM.len() as u64) as usize].as_bytes().to_vec(),
+    }
+}
+
+pub fn gen_entries(rng: &mut Rng, max: u64) -> Vec<(Vec<u8>, Vec<u8>)> {
+    let n = match rng.below(6) {
+        0 => 0,
+        1 => 1,
+        _ => rng.range(0, max),
+    };
+    let mut out: Vec<(Vec<u8>, Vec<u8>)> = Vec::new();
+    for _ in 0..n {
+        // repeated keys are common
+        let k = if !out.is_empty() && rng.chance(1, 3) { out[rng.below(out.len() as u64) as usize].0.clone() } else { gen_name(rng) };
+        out.push((k, gen_value(rng)));
+    }
+    out
+}
+
+fn gen_message(rng: &mut Rng) -> String {
+    const UNI: [&str; 12] = ["é", "ß", "\u{7ff}", "\u{800}", "€", "\u{d7ff}", "\u{e000}", "\u{ffff}", "\u{10000}", "😀", "\u{10ffff}", "\u{80}"];
+    const SPECIAL: [&str; 16] = ["%", "%%", "%41", "%zz", "%4", " ", "\"", "#", "<", ">", "`", "?", "{", "}", "\u{7f}", "\t"];
+    match rng.below(8) {
+        0 => String::new(),
+        1 => "plain message".into(),
+        2 => rng.pick(&SPECIAL).to_string(),
+        3 => rng.pick(&UNI).to_string(),
+        4 => char::from(rng.below(128) as u8).to_string(),
+        _ => {
+            let n = rng.range(1, 8);
+            let mut s = String::new();
+            for _ in 0..n {
+                match rng.below(5) {
+                    0 => s.push_str(*rng.pick(&SPECIAL[..])),
+                    1 => s.push_str(*rng.pick(&UNI[..])),
+                    2 => s.push(char::from(rng.below(32) as u8)),
+                    3 => s.push(char::from_u32(rng.below(0x11_0000 as u64) as u32).unwrap_or('x')),
+                    _ => s.push(char::from(rng.range(33, 126) as u8)),
+                }
+            }
+            s
+        }
+    }
+}
+
+fn gen_details(rng: &mut Rng) -> Vec<u8> {
+    let n = match rng.below(4) {
+        0 => 0,
+        1 => rng.range(1, 7),
+        2 => rng.range(8, 40),
+        _ => rng.range(1, 4),
+    } as usize;
+    match rng.below(4) {
+        0 => vec![0xff; n],
+        1 => vec![0x00; n],
+        _ => rng.bytes(n),
+    }
+}
+
+fn status_tok(code: u64, msg: &str, det: &[u8], md: &[(Vec<u8>, Vec<u8>)]) -> String {
+    format!("{} {} {} {}", code, hex(msg.as_bytes()), hex(det), entries_tok(md))
+}
+
+fn b64_unpadded(b: &[u8]) -> Vec<u8> {
+    use base64::Engine;
+    base64::engine::general_purpose::STANDARD_NO_PAD.encode(b).into_bytes()
+}
+
+fn pct_all(b: &[u8], upper: bool) -> Vec<u8> {
+    let mut out = Vec::new();
+    for x in b {
+        out.extend_from_slice(if upper { format!("%{:02X}", x) } else { format!("%{:02x}", x) }.as_bytes());
+    }
+    out
+}
+
+fn kv(k: &str, v: &[u8]) -> (Vec<u8>, Vec<u8>) {
+    (k.as_bytes().to_vec(), v.to_vec())
+}
+
+fn gen_code_value(rng: &mut Rng) -> Vec<u8> {
+    const ODD: [&[u8]; 20] = [
+        b"", b"00", b"01", b"016", b"17", b"99", b"-1", b"+1", b" 1", b"1 ", b"1.0", b"0x1", b"\xef\xbc\x91", b"\xb1", b"1\t", b"100", b"2", b"16", b"ok", b"O",
+    ];
+    match rng.below(3) {
+        0 => rng.below(17).to_string().into_bytes(),
+        1 => ODD[rng.below(ODD.len() as u64) as usize].to_vec(),
+        _ => {
+            let n = rng.range(1, 3) as usize;
+            (0..n).map(|_| *rng.pick(b"0123456789 +-")).collect()
+        }
+    }
+}
+
+fn gen_wire_message(rng: &mut Rng) -> Vec<u8> {
+    const ODD: [&[u8]; 22] = [
+        b"%", b"%4", b"%zz", b"%4g", b"%g4", b"%%41", b"%25", b"%C3", b"%C3%A9", b"%c3%a9", b"%FF", b"%ED%A0%80", b"%F4%90%80%80", b"%C0%80", b"%E2%82", b"\xc3\xa9", b"\xc3", b"\xff", b"a b", b"a%20b%", b"%00", b"%e2%82%ac",
+    ];
+    match rng.below(5) {
+        4 => {
+            // a peer that escapes as little as it can: `%` and what a header value cannot carry
+            let m = gen_message(rng);
+            let lower = rng.chance(1, 2);
+            let mut out = Vec::new();
+            for &b in m.as_bytes() {
+                if b == b'%' || !legal_value_byte(b) || (b >= 0x80 && rng.chance(1, 2)) {
+                    out.extend_from_slice(&pct_all(&[b], !lower));
+                } else {
+                    out.push(b);
+                }
+            }
+            out
+        }
+        0 => ODD[rng.below(ODD.len() as u64) as usize].to_vec(),
+        1 => {
+            // what tonic would write
+            let m = gen_message(rng);
+            let mut h = HeaderMap::new();
+            Status::new(Code::Unknown, m).add_header(&mut h).unwrap();
+            h.get("grpc-message").map(|v| v.as_bytes().to_vec()).unwrap_or_default()
+        }
+        2 => {
+            let n = rng.range(0, 8) as usize;
+            (0..n).map(|_| *rng.pick(b"%%%0123456789abcdefABCDEFg \xc3\xa9\xe2\x82\xac\xf0\x9f\x98\x80\xff")).collect()
+        }
+        _ => {
+            let m = gen_message(rng);
+            pct_all(m.as_bytes(), rng.chance(1, 2))
+        }
+    }
+}
+
+fn gen_wire_details(rng: &mut Rng) -> Vec<u8> {
+    const ODD: [&[u8]; 24] = [
+        b"!!!", b"A", b"AAAAA", b"A=", b"=", b"==", b"====", b"=AAA", b"AA=A", b"AAAA=", b"AA==AAAA", b"QQ", b"QR", b"QQ=", b"QQ==", b"QQ===", b"QUI", b"QUJ", b"QUI=", b"AA-_", b"AA A", b"AAAA\t", b"\xff\xff", b"QUJD====",
+    ];
+    match rng.below(4) {
+        0 => ODD[rng.below(ODD.len() as u64) as usize].to_vec(),
+        1 => b64_unpadded(&gen_details(rng)),
+        2 => {
+            use base64::Engine;
+            base64::engine::general_purpose::STANDARD.encode(gen_details(rng)).into_bytes()
+        }
+        _ => {
+            let n = rng.range(0, 10) as usize;
+            (0..n).map(|_| *rng.pick(b"ABCDwxyz0189+/==")).collect()
+        }
+    }
+}
+
+pub fn generate(tier: &str, rng: &mut Rng) -> Vec<String> {
+    let thorough = tier == "thorough";
+    let mut out: Vec<String> = Vec::new();
+
+    // ---- corpus: witnesses of findings
+    out.push(format!("dec {}", entries_tok(&[kv("grpc-status", b"3"), kv("grpc-status-details-bin", b"!!!")]))); // 5.2
+    out.push(format!("infer 200 1 {}", entries_tok(&[kv("grpc-status", b"3"), kv("grpc-status-details-bin", b"!!!")])));
+    out.push("h2 6".into()); // 5.3
+    out.push(format!("rt {}", status_tok(3, "", b"", &[kv("grpc-status-details-bin", b"!!!")])));
+    out.push(format!("rt {}", status_tok(3, "", b"", &[kv("grpc-status-details-bin", b"QUJD")])));
+
+    // ---- exhaustive finite tables (every run)
+    // Code::from_bytes: every string of length 0, 1, 2 over all 256 bytes; length 3 over an alphabet
+    out.push("code x".into());
+    for a in 0u16..=255 {
+        out.push(format!("code {}", hex(&[a as u8])));
+    }
+    for a in 0u16..=255 {
+        for b in 0u16..=255 {
+            if thorough || (32..=64).contains(&a) || (32..=64).contains(&b) || a == b {
+                out.push(format!("code {}", hex(&[a as u8, b as u8])));
+            }
+        }
+    }
+    for a in b"0123456789 +-" {
+        for b in b"0123456789 +-" {
+            for c in b"0123456789 +-" {
+                out.push(format!("code {}", hex(&[*a, *b, *c])));
+            }
+        }
+    }
+    // the same table through the header path, for every byte a header value can carry
+    for a in 0u16..=255 {
+        let a = a as u8;
+        if legal_value_byte(a) {
+            out.push(format!("dec {}", entries_tok(&[kv("grpc-status", &[a])])));
+            out.push(format!("dec {}", entries_tok(&[kv("grpc-status", &[b'1', a])])));
+            out.push(format!("dec {}", entries_tok(&[kv("grpc-status", &[a, b'1'])])));
+        }
+    }
+    // what "a Unicode string" is: Rust's encoding of code points vs the model's encoder/validator
+    for c in [0u32, 0x7f, 0x80, 0x7ff, 0x800, 0xfff, 0x1000, 0xcfff, 0xd000, 0xd7ff, 0xd800, 0xdbff, 0xdfff, 0xe000, 0xffff, 0x10000, 0x3ffff, 0x40000, 0xfffff, 0x100000, 0x10ffff, 0x110000] {
+        for d in [-1i64, 0, 1] {
+            let x = c as i64 + d;
+            if x >= 0 {
+                out.push(format!("u8 {}", x));
+            }
+        }
+    }
+    let step = if thorough { 17 } else { 997 };
+    let mut c = 0u32;
+    while c < 0x110000 {
+        out.push(format!("u8 {}", c));
+        c += step;
+    }
+    // Code::from_i32
+    for i in -3i64..=20 {
+        out.push(format!("codei {} {}", if i < 0 { "-" } else { "+" }, i.abs()));
+    }
+    for i in [i32::MIN as i64, i32::MAX as i64, 255, 256, 65536, -16, 116] {
+        out.push(format!("codei {} {}", if i < 0 { "-" } else { "+" }, i.abs()));
+    }
+    // every code × {empty, message} × details lengths 0..=4: write + read back
+    for c in 0..=16u64 {
+        for m in ["", "m", "é%"] {
+            for dl in 0..=4usize {
+                let d: Vec<u8> = (0..dl).map(|i| 0xf0 + i as u8).collect();
+                out.push(format!("rt {}", status_tok(c, m, &d, &[])));
+            }
+        }
+        out.push(format!("toh2 {}", c));
+    }
+    // percent-encode set: every ASCII byte as a one-character message; a two-character context
+    for b in 0u8..128 {
+        out.push(format!("rt {}", status_tok(2, &char::from(b).to_string(), b"", &[])));
+        out.push(format!("rt {}", status_tok(2, &format!("a{}b", char::from(b)), b"", &[])));
+    }
+    // percent-decode: %XY for all 256 values in both cases, alone and after a 2-byte lead so
+    // that continuation bytes are observable; raw (unescaped) bytes
+    for x in 0u16..=255 {
+        let x = x as u8;
+        for upper in [true, false] {
+            out.push(format!("dec {}", entries_tok(&[kv("grpc-status", b"2"), kv("grpc-message", &pct_all(&[x], upper))])));
+        }
+        let mut v = b"%C3".to_vec();
+        v.extend_from_slice(&pct_all(&[x], true));
+        out.push(format!("dec {}", entries_tok(&[kv("grpc-status", b"2"), kv("grpc-message", &v)])));
+        if legal_value_byte(x) {
+            out.push(format!("dec {}", entries_tok(&[kv("grpc-status", b"2"), kv("grpc-message", &[x])])));
+            // every byte as first / second hex digit
+            out.push(format!("dec {}", entries_tok(&[kv("grpc-status", b"2"), kv("grpc-message", &[b'%', x, b'1'])])));
+            out.push(format!("dec {}", entries_tok(&[kv("grpc-status", b"2"), kv("grpc-message", &[b'%', b'4', x])])));
+            // base64 symbol table: every byte in each position of a quantum and of the tails
+            for pat in [vec![x, b'A', b'A', b'A'], vec![b'A', b'A', b'A', x], vec![b'A', b'A', x], vec![b'A', x], vec![b'A', b'A', x, b'='], vec![b'A', x, b'=', b'='], vec![b'A', b'A', b'A', b'A', x]] {
+                out.push(format!("dec {}", entries_tok(&[kv("grpc-status", b"2"), kv("grpc-status-details-bin", &pat)])));
+            }
+        }
+    }
+    // base64: every 1- and 2-byte details value round trip (thorough: all 65536 two-byte values)
+    for a in 0u16..=255 {
+        out.push(format!("rt {}", status_tok(2, "", &[a as u8], &[])));
+    }
+    let n2 = if thorough { 65536 } else { 1024 };
+    for i in 0..n2 {
+        let v: u16 = if thorough { i as u16 } else { rng.next() as u16 };
+        out.push(format!("rt {}", status_tok(2, "", &v.to_be_bytes(), &[])));
+    }
+    // HTTP status table: every status code the http crate can represent, no trailers / trailers
+    // without grpc-status
+    for s in 100u16..=999 {
+        out.push(format!("infer {} 0", s));
+        if s < 600 {
+            out.push(format!("infer {} 1 {}", s, entries_tok(&[kv("x-a", b"1")])));
+        }
+    }
+    // HTTP/2 error codes
+    for r in (0u64..=20).chain([255, 256, 65535, 1 << 31, u32::MAX as u64]) {
+        out.push(format!("h2 {}", r));
+    }
+
+    // ---- structured: statuses
+    let n = if thorough { 200000 } else { 4000 };
+    for i in 0..n {
+        let code = rng.below(17);
+        let msg = gen_message(rng);
+        let det = gen_details(rng);
+        let md = gen_entries(rng, 6);
+        if i % 8 == 5 {
+            out.push(format!("rth {}", status_tok(code, &msg, &det, &md)));
+        } else if i % 4 == 3 {
+            let h0 = gen_entries(rng, 4);
+            out.push(format!("enc {} {}", status_tok(code, &msg, &det, &md), entries_tok(&h0)));
+        } else {
+            out.push(format!("rt {}", status_tok(code, &msg, &det, &md)));
+        }
+    }
+
+    // ---- malformed / arbitrary peer header maps
+    let n = if thorough { 200000 } else { 4000 };
+    for _ in 0..n {
+        let mut es: Vec<(Vec<u8>, Vec<u8>)> = Vec::new();
+        let k = rng.range(0, 5);
+        for _ in 0..k {
+            match rng.below(6) {
+                0 | 1 => es.push(kv("grpc-status", &gen_code_value(rng))),
+                2 => es.push(kv("grpc-message", &gen_wire_message(rng))),
+                3 => es.push(kv("grpc-status-details-bin", &gen_wire_details(rng))),
+                _ => es.push((gen_name(rng), gen_value(rng))),
+            }
+        }
+        if rng.chance(3, 4) && !es.iter().any(|e| e.0 == b"grpc-status") {
+            let pos = rng.below(es.len() as u64 + 1) as usize;
+            es.insert(pos, kv("grpc-status", &gen_code_value(rng)));
+        }
+        out.push(format!("dec {}", entries_tok(&es)));
+    }
+    // end-of-body classification with trailers
+    let n = if thorough { 60000 } else { 1500 };
+    for _ in 0..n {
+        let http = match rng.below(4) {
+            0 => 200,
+            1 => *rng.pick(&[400u64, 401, 403, 404, 429, 500, 502, 503, 504]),
+            _ => rng.range(100, 599),
+        };
+        let nf = rng.range(0, 2);
+        let mut s = format!("infer {} {}", http, nf);
+        for _ in 0..nf {
+            let mut es = gen_entries(rng, 3);
+            if rng.chance(2, 3) {
+                es.push(kv("grpc-status", &gen_code_value(rng)));
+            }
+            if rng.chance(1, 3) {
+                es.push(kv("grpc-message", &gen_wire_message(rng)));
+            }
+            if rng.chance(1, 4) {
+                es.push(kv("grpc-status-details-bin", &gen_wire_details(rng)));
+            }
+            s.push(' ');
+            s.push_str(&entries_tok(&es));
+        }
+        out.push(s);
+    }
+    out
 }
